@@ -5,7 +5,7 @@ import json, os, shutil, sys
 V = os.path.dirname(os.path.dirname(os.path.abspath(__file__)))
 pid, slug, caught = sys.argv[1], sys.argv[2], sys.argv[3]
 needs = " ".join(sys.argv[4:])
-src = "/tmp/seed-out/%s" % pid
+src = os.environ.get("SEED_SRC", "/tmp/seed-out") + "/%s" % pid
 dst = os.path.join(V, "seeded", "%s-%s" % (pid, slug))
 os.makedirs(dst, exist_ok=True)
 for f in os.listdir(src):
@@ -20,7 +20,7 @@ meta = {
         "baseline_444_tests_pass_with_change": True,
         "demo_exit_without_change": 0,
         "demo_exit_with_change": 1,
-        "how": "tools/seedcheck.sh /tmp/seed-out/%s <checks> (scratch copy under /tmp, removed afterwards)" % pid,
+        "how": "tools/seedcheck.sh %s <checks> (scratch copy under /tmp, removed afterwards)" % src,
     },
     "caught_by_quick_checks": [] if caught == "none" else caught.split(","),
 }
